@@ -324,12 +324,29 @@ use crate::cspec::*;''')
     cn.keep_only(['new'])
     cn.clean()
     cn.own(OWN)
+    cn.insert_members('''    pub closed spec fn enc(&self) -> Encoding { self.encoding }
+    pub closed spec fn caf(&self) -> u8 { self.code_alignment_factor }
+    pub closed spec fn daf(&self) -> i8 { self.data_alignment_factor }
+    pub closed spec fn ra(&self) -> Register { self.return_address_register }
+    pub closed spec fn insns(&self) -> Seq<CallFrameInstruction> { self.instructions@ }
+    pub closed spec fn pers(&self) -> Option<(constants::DwEhPe, Address)> { self.personality }
+    pub closed spec fn lsda_enc(&self) -> Option<constants::DwEhPe> { self.lsda_encoding }
+    pub closed spec fn fde_enc(&self) -> constants::DwEhPe { self.fde_address_encoding }
+    pub closed spec fn signal(&self) -> bool { self.signal_trampoline }''')
+    cn.splice('new', ret='res', ensures=[
+        'res.enc() == encoding && res.caf() == code_alignment_factor && res.daf() == data_alignment_factor && res.ra() == return_address_register',
+        'res.pers() is None && res.lsda_enc() is None && res.fde_enc() == constants::DW_EH_PE_absptr && !res.signal() && res.insns().len() == 0'])
     sk.add('write::cfi', cn)
     sk.add('write::cfi', debug_only(wc.item(r'^pub struct FrameDescriptionEntry \{')).clean())
     fn = wc.item(r'^impl FrameDescriptionEntry \{', label='FrameDescriptionEntry')
     fn.keep_only(['new'])
     fn.clean()
     fn.own(OWN)
+    fn.insert_members('''    pub closed spec fn addr(&self) -> Address { self.address }
+    pub closed spec fn len(&self) -> u32 { self.length }
+    pub closed spec fn insns(&self) -> Seq<(u32, CallFrameInstruction)> { self.instructions@ }
+    pub closed spec fn lsda_w(&self) -> Option<Address> { self.lsda }''')
+    fn.splice('new', ret='res', ensures=['res.addr() == address && res.len() == length && res.lsda_w() is None && res.insns().len() == 0'])
     sk.add('write::cfi', fn)
     sk.add('write::cfi', debug_only(wc.item(r'^pub enum CallFrameInstruction \{')).clean())
     CONV = r'^pub\(crate\) mod convert \{'
@@ -342,6 +359,56 @@ use crate::cspec::*;''')
     ci.insert_after('let convert_expression = |x', ': read::Expression<R>')
     ci.splice('from', ret='res', requires=[CA_TOTAL], ensures=cfi_instruction_clauses())
     sk.add('write::cfi::convert', ci)
+
+    CAF, DAF = 'from_cie.caf() as int', 'from_cie.daf() as int'
+    LOOP_TOP = ('proof { k = k + 1; assert(full.take(k).drop_last() =~= full.take(k - 1)); assert(full.take(k).last() == full[k - 1]); '
+                'assert(full.skip(k - 1).skip(1) =~= full.skip(k)); assert(full.skip(k - 1)[0] == full[k - 1]); }')
+    LOOP_END = 'proof { assert(k == full.len()); assert(full.take(k) =~= full); }'
+    # ---- CommonInformationEntry::from
+    cc = wc.item(r'^    impl CommonInformationEntry \{', within=CONV, label='CommonInformationEntry')
+    r_dyn(cc, 'fn from<R, Section>(', 'fn from<R, Section, ConvAddr>(', 'where\n            R: Reader<Offset = usize>,', 'where\n            ' + CA_BOUND + '\n            R: Reader<Offset = usize>,')
+    cc.clean()
+    cc.own(OWN)
+    cc.splice('from', ret='res', requires=[CA_TOTAL], ensures=par([
+        '[C12:cie-code-alignment] res matches Ok(c) ==> c.caf() as int == from_cie.caf() as int',
+        '[C12:cie-data-alignment] res matches Ok(c) ==> c.daf() as int == from_cie.daf() as int',
+        '[C12:cie-return-address-register] res matches Ok(c) ==> c.ra() == from_cie.ra()',
+        '[C12:cie-encoding] res matches Ok(c) ==> c.enc() == from_cie.enc()',
+        '[C12:cie-augmentation] res matches Ok(c) ==> c.lsda_encoding == from_cie.aug_lsda() && c.signal_trampoline == from_cie.aug_signal() && '
+        'c.fde_address_encoding == (match from_cie.aug_fde_enc() { Some(e) => e, None => constants::DW_EH_PE_absptr })',
+        '[C12:cie-personality] res matches Ok(c) ==> (match from_cie.aug_personality() { Some(pp) => (c.personality matches Some(cp) && cp.0 == pp.0 && conv_addr(convert_address, pointer_value(pp.1), cp.1)), None => c.personality is None })',
+        f'[C12:cie-instructions] res matches Ok(c) ==> wcie_sems(c.insns()) =~= row_sems(cfi_rows(from_cie.insn_seq(), {CAF}, {DAF}))',
+    ]), loops={0: f'invariant 0 <= k <= full.len(), full == from_cie.insn_seq(), from_instructions.rest() == full.skip(k), {CA_TOTAL}, '
+                  f'offset as int == cfi_loc(full.take(k), {CAF}), wcie_sems(cie.insns()) =~= row_sems(cfi_rows(full.take(k), {CAF}, {DAF})), '
+                  'cie.caf() as int == (from_cie.caf() as u8) as int, cie.daf() as int == (from_cie.daf() as i8) as int, cie.ra() == from_cie.ra(), cie.enc() == from_cie.enc(), '
+                  'cie.lsda_encoding == from_cie.aug_lsda(), cie.signal_trampoline == from_cie.aug_signal(), '
+                  'cie.fde_address_encoding == (match from_cie.aug_fde_enc() { Some(e) => e, None => constants::DW_EH_PE_absptr }), '
+                  '(match from_cie.aug_personality() { Some(pp) => (cie.personality matches Some(cp) && cp.0 == pp.0 && conv_addr(convert_address, pointer_value(pp.1), cp.1)), None => cie.personality is None }),\n'
+                  ' decreases full.len() - k'},
+        before=[('let mut offset = 0;', 'let ghost full = from_cie.insn_seq(); let ghost mut k: int = 0;'),
+                ('if let Some(instruction) = CallFrameInstruction::from(', LOOP_TOP),
+                ('Ok(cie)', LOOP_END)])
+    sk.add('write::cfi::convert', cc)
+    # ---- FrameDescriptionEntry::from
+    fc = wc.item(r'^    impl FrameDescriptionEntry \{', within=CONV, label='FrameDescriptionEntry')
+    r_dyn(fc, 'fn from<R, Section>(', 'fn from<R, Section, ConvAddr>(', 'where\n            R: Reader<Offset = usize>,', 'where\n            ' + CA_BOUND + '\n            R: Reader<Offset = usize>,')
+    fc.clean()
+    fc.own(OWN)
+    FCAF, FDAF = 'from_fde.cie_v().caf() as int', 'from_fde.cie_v().daf() as int'
+    fc.splice('from', ret='res', requires=[CA_TOTAL], ensures=par([
+        '[C12:fde-address] res matches Ok(f) ==> conv_addr(convert_address, from_fde.initial(), f.addr())',
+        '[C12:fde-length] res matches Ok(f) ==> f.len() as int == from_fde.range() as int',
+        '[C12:fde-lsda] res matches Ok(f) ==> (match from_fde.lsda_v() { Some(p) => (f.lsda matches Some(a) && conv_addr(convert_address, pointer_value(p), a)), None => f.lsda is None })',
+        f'[C12:fde-instructions] res matches Ok(f) ==> wfde_rows(f.insns()) =~= cfi_rows(from_fde.insn_seq(), {FCAF}, {FDAF})',
+    ]), loops={0: f'invariant 0 <= k <= full.len(), full == from_fde.insn_seq(), from_instructions.rest() == full.skip(k), {CA_TOTAL}, *from_cie == from_fde.cie_v(), '
+                  f'offset as int == cfi_loc(full.take(k), {FCAF}), wfde_rows(fde.insns()) =~= cfi_rows(full.take(k), {FCAF}, {FDAF}), '
+                  'conv_addr(convert_address, from_fde.initial(), fde.addr()), fde.len() as int == (from_fde.range() as u32) as int, '
+                  '(match from_fde.lsda_v() { Some(p) => (fde.lsda matches Some(a) && conv_addr(convert_address, pointer_value(p), a)), None => fde.lsda is None }),\n'
+                  ' decreases full.len() - k'},
+        before=[('let mut offset = 0;', 'let ghost full = from_fde.insn_seq(); let ghost mut k: int = 0;'),
+                ('if let Some(instruction) = CallFrameInstruction::from(', LOOP_TOP),
+                ('Ok(fde)', LOOP_END)])
+    sk.add('write::cfi::convert', fc)
 
 
 def populate(ctx, sk):
